@@ -14,6 +14,7 @@ git -C $wt apply $out/patch.diff
 echo "tests_with_change: $t_with | demo exit with=$d_with without=$d_without"
 # run the checks against /repo with the change applied
 if ! git -C /repo apply --check $out/patch.diff 2>/dev/null; then echo "patch does not apply to /repo"; exit 3; fi
+cp -r /verif/evidence /verif/_work/evidence_backup_$$
 git -C /repo apply $out/patch.diff
 res=""
 for p in $pid $extra; do
@@ -22,6 +23,7 @@ for p in $pid $extra; do
   mkdir -p $out/replays; cp /verif/replays/${p}_*.json $out/replays/ 2>/dev/null
 done
 git -C /repo checkout -- .
+rm -rf /verif/evidence; mv /verif/_work/evidence_backup_$$ /verif/evidence
 echo "checks:$res"
 python3 - "$sid" "$pid" "$t_with" "$d_with" "$d_without" "$res" <<'PY'
 import json,sys
